@@ -20,10 +20,13 @@ enum Ev {
     Flatten(&'static str),
     Close(&'static str),
     Liq,
+    /// PayFunding (funding is due in the staged state: the first one succeeds)
+    Fund,
     NextBlock,
 }
 
-const ALPHABET: [Ev; 11] = [
+const ALPHABET: [Ev; 12] = [
+    Ev::Fund,
     Ev::Flatten(BOB),
     Ev::Flatten(LIQ),
     Ev::Open(BOB, false),
@@ -52,7 +55,11 @@ fn staged(partial: bool) -> Run {
     r.w.next_block(15);
     let units = if partial { 5 } else { 45 };
     assert!(r.step(Op::Open { who: BOB, side: Side::Sell, margin: Uint128::new(units * d), lev: Uint128::new(10 * d), limit: Uint128::zero(), funds: None }).tx.ok);
-    r.w.next_block(1000);
+    // more than a funding period later: a settlement is due
+    r.w.next_block(90_000);
+    let now = r.w.now();
+    let d = r.w.d;
+    r.w.set_oracle(Uint128::new(10 * d), now);
     r
 }
 
@@ -68,6 +75,9 @@ fn run_seq(seq: &[Ev], partial: bool, sym_last: Option<&str>) {
             Ev::NextBlock => {
                 r.w.next_block(15);
                 liq_in_block = false;
+            }
+            Ev::Fund => {
+                r.step(Op::PayFunding { by: EVE });
             }
             Ev::Liq => {
                 let t = r.step(Op::Liquidate { by: LIQ, trader: ALICE, limit: Uint128::zero() });
@@ -186,6 +196,8 @@ pub fn scenarios(seed: u64) -> Vec<Scenario> {
         ("liqopens-liq-next-liqopens", vec![Open(LIQ, true), Liq, NextBlock, Open(LIQ, true)]),
         ("liq-alice-reopens", vec![Liq, Open(ALICE, true)]),
         ("liq-bobflattens-bobreopens", vec![Liq, Flatten(BOB), Open(BOB, false)]),
+        ("liqopens-liq-fund-liqcloses", vec![Open(LIQ, true), Liq, Fund, Close(LIQ)]),
+        ("bobtrades-liq-fund-bobtrades", vec![Open(BOB, false), Liq, Fund, Open(BOB, false)]),
         ("liqopens-next-liq-liqflattens-liqreopens", vec![Open(LIQ, false), NextBlock, Liq, Flatten(LIQ), Open(LIQ, false)]),
     ];
     for (n, seq) in ded {
